@@ -1204,7 +1204,9 @@ type c19FixedT struct{}
 
 type c19FixedFailure string
 
-func (c19FixedT) Fatalf(format string, args ...any) { panic(c19FixedFailure(fmt.Sprintf(format, args...))) }
+func (c19FixedT) Fatalf(format string, args ...any) {
+	panic(c19FixedFailure(fmt.Sprintf(format, args...)))
+}
 
 func c19FixedOps(name string) []c19Op {
 	body := func(n int, tag string) []byte { return c19Pcap(n, []byte(tag)) }
